@@ -37,6 +37,8 @@ def trees():
     out["chain-doomed-lhs"] = (m7, {"A": ("sort", m7, ((A_, True),)), "B": ("xfer", ("proj", m7, ("a",)), "it2")}, True)
     m8 = ("mat", ("chain", selx, D0), "m8")
     out["chain-doomed-rhs"] = (m8, {"A": ("dedup", m8), "B": ("sel", m8, ("lt", A_, B_))}, True)
+    m9 = ("mat", ("xfer", selx, "it2"), "m9")
+    out["mat-under-transfers"] = (m9, {"A": ("xfer", ("xfer", m9, "sq"), "it1"), "B": ("xfer", ("sel", ("xfer", m9, "sq"), ("lt", A_, B_)), "it1")}, True)
     m6 = ("mat", ("proj", X, ("a", "b")), "m6")
     out["chain-shared"] = (m6, {"A": ("chain", m6, m6), "B": ("chain", ("sel", m6, ("gt", A_, ("lit", "$k"))), m6)}, False)
     return out
@@ -115,6 +117,8 @@ def run_history(tname, hist, ctx, valfn, bind=None):
         return None
 
     mnode = find_mat(M, m_prog[2])
+    early = [("materialization-not-part-of-the-tree-built-on-it", f"tree {k} = {T[k]} does not contain {mnode}")
+             for k in sorted(T) if repr(m_prog) in repr(tprogs[k]) and find_mat(T[k], m_prog[2]) is not mnode]
     db = symproc.SymDB(env)
     log = []
     proc = symproc.make_processor(db, log)
@@ -127,7 +131,7 @@ def run_history(tname, hist, ctx, valfn, bind=None):
     else:
         P = iteration.RowSequence([{env.tags[c]: r[c] for c in mcols} for r in prow])
         ptab = relmodel.leaf_concrete([{c: zint(r[c]) for c in mcols} for r in prow], mcols)
-    problems = []
+    problems = list(early[:1])
     checks = []
     m_state = {"attached": False}
     payload_seen = {}
@@ -211,7 +215,12 @@ def run_history(tname, hist, ctx, valfn, bind=None):
     note_payloads()
     # at-most-once evaluation of the materialization's upstream
     n_mat = sum(1 for e in log if e[0] == "materialize" and e[2] == m_prog[2])
-    n_xfer = sum(1 for e in log if e[0] == "transfer" and _feeds(e[1], m_prog))
+    from lsst.daf.relation import Transfer
+    feed = mnode.target
+    while isinstance(feed, MarkerRelation) and not isinstance(feed, Transfer):  # SQL Select wrappers
+        feed = feed.target
+    feed_src = str(feed.target) if isinstance(feed, Transfer) else None
+    n_xfer = sum(1 for e in log if e[0] == "transfer" and feed_src is not None and str(e[1]) == feed_src)
     if n_mat > 1:
         problems.append(("materialize-hook-twice", f"materialize hook ran {n_mat} times for {m_prog[2]}"))
     if n_xfer > 1:
